@@ -571,3 +571,347 @@ Section Pair.
     destruct (on_sem_total _ _ Hl Hr) as [b ->]. reflexivity.
   Qed.
 End Pair.
+
+(* ------------------------------------------------------------------ *)
+(* Part E: nested loop = specification                                  *)
+(* ------------------------------------------------------------------ *)
+
+(* ---------- multiset algebra of flat_map ---------- *)
+
+Lemma flat_map_perm_ext {X Y} (f g : X -> list Y) l :
+  (forall x, In x l -> Permutation (f x) (g x)) -> Permutation (flat_map f l) (flat_map g l).
+Proof.
+  induction l as [|x l IH]; cbn; intros H; [constructor|].
+  apply Permutation_app; [apply H; now left|apply IH; intros; apply H; now right].
+Qed.
+
+Lemma flat_map_app_perm {X Y} (f g : X -> list Y) l :
+  Permutation (flat_map (fun x => f x ++ g x) l) (flat_map f l ++ flat_map g l).
+Proof.
+  induction l as [|x l IH]; cbn; [constructor|].
+  rewrite <- !app_assoc. apply Permutation_app_head.
+  etransitivity; [apply Permutation_app_head, IH|].
+  apply Permutation_app_swap_app.
+Qed.
+
+Lemma flat_map_nil_fn {X Y} (l : list X) : flat_map (fun _ => @nil Y) l = [].
+Proof. induction l; cbn; auto. Qed.
+
+(* the two nested loops can be exchanged *)
+Lemma flat_map_swap {X Y Z} (F : X -> Y -> list Z) xs ys :
+  Permutation (flat_map (fun y => flat_map (fun x => F x y) xs) ys)
+              (flat_map (fun x => flat_map (fun y => F x y) ys) xs).
+Proof.
+  induction ys as [|y ys IH]; cbn.
+  - now rewrite flat_map_nil_fn.
+  - etransitivity; [apply Permutation_app_head, IH|]. symmetry. apply flat_map_app_perm.
+Qed.
+
+Lemma filter_perm {X} (p : X -> bool) l l' : Permutation l l' -> Permutation (filter p l) (filter p l').
+Proof.
+  induction 1; cbn.
+  - constructor.
+  - destruct (p x); [now constructor|assumption].
+  - destruct (p x), (p y); try reflexivity. constructor.
+  - etransitivity; eauto.
+Qed.
+
+Lemma filter_flat_map {X Y} (p : Y -> bool) (f : X -> list Y) l :
+  filter p (flat_map f l) = flat_map (fun x => filter p (f x)) l.
+Proof. induction l as [|x l IH]; cbn; [reflexivity|]. now rewrite filter_app, IH. Qed.
+
+Lemma flat_map_flat_map {X Y Z} (f : Y -> list Z) (g : X -> list Y) l :
+  flat_map f (flat_map g l) = flat_map (fun x => flat_map f (g x)) l.
+Proof. induction l as [|x l IH]; cbn; [reflexivity|]. now rewrite flat_map_app, IH. Qed.
+
+Lemma map_flat_map {X Y Z} (f : Y -> Z) (g : X -> list Y) l :
+  map f (flat_map g l) = flat_map (fun x => map f (g x)) l.
+Proof. induction l as [|x l IH]; cbn; [reflexivity|]. now rewrite map_app, IH. Qed.
+
+Lemma flat_map_ext_in {X Y} (f g : X -> list Y) l :
+  (forall x, In x l -> f x = g x) -> flat_map f l = flat_map g l.
+Proof.
+  induction l as [|x l IH]; cbn; intros H; [reflexivity|].
+  rewrite (H x) by auto. rewrite IH by auto. reflexivity.
+Qed.
+
+Lemma filter_all {X} (p : X -> bool) l b :
+  (forall x, In x l -> p x = b) -> filter p l = if b then l else [].
+Proof.
+  induction l as [|x l IH]; cbn; intros H; [now destruct b|].
+  rewrite (H x) by auto. rewrite IH by auto. now destruct b.
+Qed.
+
+Lemma concat_map_flat {X Y} (f : X -> list Y) l : List.concat (map f l) = flat_map f l.
+Proof. symmetry. apply flat_map_concat_map. Qed.
+
+(* ---------- pure versions of the row constructors ---------- *)
+
+Definition is_objv (v : value) : Prop := match v with VObj _ => True | _ => False end.
+Definition rowof (v : value) : row := match v with VObj kv => kv | _ => [] end.
+Definition mergep (l r : value) : value := VObj (obj_merge (obj_merge [] (rowof l)) (rowof r)).
+Definition nullp (rid : string) (l : value) : value :=
+  VObj (obj_set rid VNull (obj_merge [] (rowof l))).
+Definition pairsp (ls rs : list value) : list value := flat_map (fun l => map (mergep l) rs) ls.
+
+Lemma merge_rows_pure l r : is_objv l -> is_objv r -> merge_rows l r = Ok (mergep l r).
+Proof. destruct l; try easy. destruct r; easy. Qed.
+
+Lemma with_null_pure rid l : is_objv l -> with_null l rid = Ok (nullp rid l).
+Proof. destruct l; easy. Qed.
+
+Lemma pairs_pure ls rs :
+  (forall l, In l ls -> is_objv l) -> (forall r, In r rs -> is_objv r) ->
+  pairs ls rs = Ok (pairsp ls rs).
+Proof.
+  intros Hl Hr. unfold pairs, pairsp.
+  rewrite (mapM_pure _ (fun l => map (mergep l) rs)).
+  - cbn. now rewrite concat_map_flat.
+  - intros l Hin. apply mapM_pure. intros r Hin'. apply merge_rows_pure; auto.
+Qed.
+
+Lemma pairsp_nil_r ls : pairsp ls [] = [].
+Proof. unfold pairsp. cbn. apply flat_map_nil_fn. Qed.
+
+Lemma pairsp_nonempty ls rs : ls <> [] -> rs <> [] -> pairsp ls rs <> [].
+Proof. destruct ls as [|l ls]; [easy|]. destruct rs as [|r rs]; [easy|]. discriminate. Qed.
+
+(* ---------- the specification, purely ---------- *)
+
+Section SpecPure.
+  Variables (data : row) (on : expr stmt) (rid : string) (L R : list value) (holds : value -> value -> bool).
+  Hypothesis HL : forall l, In l L -> is_objv l.
+  Hypothesis HR : forall r, In r R -> is_objv r.
+  Hypothesis Hholds : forall l r, In l L -> In r R -> on_holds data on l r = Ok (holds l r).
+
+  Lemma partners_pure l R' : In l L -> incl R' R -> partners data on l R' = Ok (filter (holds l) R').
+  Proof.
+    intros Hl. induction R' as [|r R' IH]; intros Hinc; cbn; [reflexivity|].
+    rewrite Hholds by (auto; apply Hinc; now left). cbn.
+    rewrite IH by (intros x Hx; apply Hinc; now right). cbn. reflexivity.
+  Qed.
+
+  Definition gspec (outer : bool) (l : value) : list value :=
+    match filter (holds l) R with
+    | [] => if outer then [nullp rid l] else []
+    | ps => map (mergep l) ps
+    end.
+
+  Lemma left_join_pure outer L' : incl L' L ->
+    left_join data on outer rid L' R = Ok (flat_map (gspec outer) L').
+  Proof.
+    induction L' as [|l L' IH]; intros Hinc; cbn; [reflexivity|].
+    assert (Hl : In l L) by (apply Hinc; now left).
+    rewrite (partners_pure l R Hl (incl_refl R)). cbn [bind].
+    rewrite IH by (intros x Hx; apply Hinc; now right).
+    unfold gspec. destruct (filter (holds l) R) as [|p ps] eqn:Ef.
+    - destruct outer; cbn; [|reflexivity]. rewrite with_null_pure by auto. reflexivity.
+    - rewrite (mapM_pure _ (mergep l)).
+      + reflexivity.
+      + intros r Hr. apply merge_rows_pure; [auto|]. apply HR.
+        assert (In r (filter (holds l) R)) by (rewrite Ef; exact Hr).
+        now apply filter_In in H.
+  Qed.
+End SpecPure.
+
+(* ---------- the nested loop over two catalogs, purely ---------- *)
+
+Section LoopPure.
+  Variables (li ri : string) (L R : list value) (on : expr stmt) (data : row).
+  Hypothesis WF : wf_join li ri L R on.
+
+  Let lcols := map (col_of li) (on_cmps on).
+  Let rcols := map (col_of ri) (on_cmps on).
+  Variables (lcat rcat : list centry).
+  Hypothesis HLC : catalog_of lcols L lcat.
+  Hypothesis HRC : catalog_of rcols R rcat.
+
+  Lemma objL l : In l L -> is_objv l.
+  Proof. intros H. destruct WF as [_ HL _ _ _ _ _ _ _]. destruct (HL l H) as [v ->]. exact I. Qed.
+  Lemma objR r : In r R -> is_objv r.
+  Proof. intros H. destruct WF as [_ _ HR _ _ _ _ _ _]. destruct (HR r H) as [v ->]. exact I. Qed.
+
+  Lemma cat_rows_in T cols cat e r : catalog_of cols T cat -> In e cat -> In r (crows e) -> In r T.
+  Proof.
+    intros [_ _ _ Hp] He Hr. eapply Permutation_in; [exact Hp|].
+    apply in_concat. exists (crows e). split; [now apply in_map|exact Hr].
+  Qed.
+
+  (* all rows of a group carry the same normalised key values, hence the group's key map is
+     the key map of each of them: this is where text_faithful and key_text_faithful are used *)
+  Lemma kvals_eq T cols r r0 :
+    side_ok T cols -> In r T -> In r0 T ->
+    map fmt_value (kvals cols r) = map fmt_value (kvals cols r0) -> kvals cols r = kvals cols r0.
+  Proof.
+    intros [Hread Htext] Hr Hr0. unfold kvals.
+    assert (G : forall cs, incl cs cols ->
+              map fmt_value (map (fun p => norm_zero (rd r p)) cs) =
+              map fmt_value (map (fun p => norm_zero (rd r0 p)) cs) ->
+              map (fun p => norm_zero (rd r p)) cs = map (fun p => norm_zero (rd r0 p)) cs);
+      [|apply G, incl_refl].
+    induction cs as [|p cs IH]; intros Hsub; cbn; [reflexivity|].
+    intros [= H1 H2]. f_equal; [|apply IH; auto; intros x Hx; apply Hsub; now right].
+    assert (Hp : In p cols) by (apply Hsub; now left).
+    destruct (Hread r p Hr Hp) as (v & Hv & _). destruct (Hread r0 p Hr0 Hp) as (w & Hw & _).
+    unfold rd in *. rewrite Hv, Hw in *. apply (Htext p v w Hp); [exists r|exists r0|]; auto.
+  Qed.
+
+  Lemma group_key_map T cols cat e r :
+    side_ok T cols -> catalog_of cols T cat -> In e cat -> In r (crows e) ->
+    ckmap e = key_map cols (kvals cols r) /\ key_text (kvals cols r) = Ok (fst e).
+  Proof.
+    intros Hs Hc He Hr.
+    destruct (catalog_key_map _ _ _ _ Hc He) as (r0 & Hr0 & Hk0).
+    destruct (catalog_row_key _ _ _ _ _ Hc He Hr) as (km & Hk).
+    pose proof (cat_rows_in _ _ _ _ _ Hc He Hr) as HrT.
+    pose proof (cat_rows_in _ _ _ _ _ Hc He Hr0) as Hr0T.
+    destruct (row_key_ok _ _ _ Hs HrT) as (k & Hk' & Hkt). rewrite Hk in Hk'.
+    injection Hk' as E1 E2. subst k km.
+    destruct (row_key_ok _ _ _ Hs Hr0T) as (k0 & Hk0' & Hkt0). rewrite Hk0 in Hk0'.
+    injection Hk0' as E1 Hkm. subst k0.
+    rewrite Hkm. split; [|exact Hkt].
+    f_equal. symmetry. apply (kvals_eq T); auto.
+    now apply (key_text_faithful_strong _ _ (fst e)).
+  Qed.
+
+  (* does left group [le] pair with right group [re]?  decided on any representatives *)
+  Definition bm (le re : centry) : bool :=
+    match crows le, crows re with
+    | l :: _, r :: _ => holdsp li on l r
+    | _, _ => false
+    end.
+
+  Lemma bm_rows le re l r :
+    In le lcat -> In re rcat -> In l (crows le) -> In r (crows re) -> holdsp li on l r = bm le re.
+  Proof.
+    intros Hle Hre Hl Hr. unfold bm.
+    destruct (crows le) as [|l0 ls] eqn:El; [destruct Hl|].
+    destruct (crows re) as [|r0 rs] eqn:Er; [destruct Hr|].
+    assert (Hl0 : In l0 (crows le)) by (rewrite El; now left).
+    assert (Hr0 : In r0 (crows re)) by (rewrite Er; now left).
+    rewrite <- El in Hl. rewrite <- Er in Hr.
+    destruct WF as [_ _ _ _ _ _ HsL HsR _].
+    destruct (group_key_map _ _ _ _ _ HsL HLC Hle Hl) as [K1 _].
+    destruct (group_key_map _ _ _ _ _ HsL HLC Hle Hl0) as [K2 _].
+    destruct (group_key_map _ _ _ _ _ HsR HRC Hre Hr) as [K3 _].
+    destruct (group_key_map _ _ _ _ _ HsR HRC Hre Hr0) as [K4 _].
+    pose proof (eval_keys_pure li ri L R on data WF l r
+                  (cat_rows_in _ _ _ _ _ HLC Hle Hl) (cat_rows_in _ _ _ _ _ HRC Hre Hr)) as E1.
+    pose proof (eval_keys_pure li ri L R on data WF l0 r0
+                  (cat_rows_in _ _ _ _ _ HLC Hle Hl0) (cat_rows_in _ _ _ _ _ HRC Hre Hr0)) as E2.
+    fold lcols rcols in E1, E2. rewrite <- K1, <- K3 in E1. rewrite <- K2, <- K4 in E2.
+    rewrite E1 in E2. now injection E2.
+  Qed.
+
+  Lemma eval_group le re :
+    In le lcat -> In re rcat ->
+    eval (on_env data) (obj_merge (obj_merge [] (ckmap le)) (ckmap re)) on = Ok (RVal (VBool (bm le re))).
+  Proof.
+    intros Hle Hre.
+    destruct HLC as [_ _ HneL _]. destruct HRC as [_ _ HneR _].
+    rewrite Forall_forall in HneL, HneR. pose proof (HneL le Hle) as H1. pose proof (HneR re Hre) as H2.
+    destruct (crows le) as [|l ls] eqn:El; [congruence|]. destruct (crows re) as [|r rs] eqn:Er; [congruence|].
+    assert (Hl : In l (crows le)) by (rewrite El; now left).
+    assert (Hr : In r (crows re)) by (rewrite Er; now left).
+    rewrite <- (bm_rows le re l r Hle Hre Hl Hr).
+    destruct WF as [_ _ _ _ _ _ HsL HsR _].
+    destruct (group_key_map _ _ _ _ _ HsL HLC Hle Hl) as [-> _].
+    destruct (group_key_map _ _ _ _ _ HsR HRC Hre Hr) as [-> _].
+    apply (eval_keys_pure li ri L R on data WF);
+      [apply (cat_rows_in _ _ _ _ _ HLC Hle Hl)|apply (cat_rows_in _ _ _ _ _ HRC Hre Hr)].
+  Qed.
+
+  Definition loopp (inner : bool) (le : centry) : list value :=
+    match flat_map (fun re => if bm le re then pairsp (crows le) (crows re) else []) rcat with
+    | [] => if inner then [] else map (nullp ri) (crows le)
+    | out => out
+    end.
+
+  Lemma loop_match_pure inner le : In le lcat ->
+    loop_match data inner ri on le rcat = Ok (loopp inner le).
+  Proof.
+    intros Hle. unfold loop_match, loopp.
+    assert (Hlobj : forall l, In l (crows le) -> is_objv l).
+    { intros l Hl. apply objL. eapply cat_rows_in; eauto. }
+    destruct le as [k [lkeys lrows]] eqn:Ele.
+    rewrite (mapM_pure _ (fun re => if bm le re then pairsp (crows le) (crows re) else [])).
+    - cbn [bind]. rewrite concat_map_flat. subst le. cbn [crows snd].
+      destruct (flat_map _ rcat); [|reflexivity].
+      destruct inner; [reflexivity|]. apply mapM_pure. intros l Hl. apply with_null_pure. now apply Hlobj.
+    - intros [k' [rkeys rrows]] Hre.
+      pose proof (eval_group le (k', (rkeys, rrows))) as Hev. subst le. cbn [ckmap fst snd] in Hev.
+      rewrite Hev by assumption. cbn [bind].
+      destruct (bm _ _); [|reflexivity]. apply pairs_pure; [exact Hlobj|].
+      intros r Hr. apply objR. eapply cat_rows_in; eauto.
+  Qed.
+
+  (* the right rows that pair with (any row of) left group [le] *)
+  Definition partners_of (le : centry) : list value :=
+    flat_map (fun re => if bm le re then crows re else []) rcat.
+
+  Lemma filter_partners le l : In le lcat -> In l (crows le) ->
+    Permutation (filter (holdsp li on l) R) (partners_of le).
+  Proof.
+    intros Hle Hl. destruct HRC as [_ _ _ Hp].
+    etransitivity; [apply filter_perm; symmetry; exact Hp|].
+    rewrite concat_map_flat, filter_flat_map. unfold partners_of.
+    rewrite (flat_map_ext_in _ (fun re => if bm le re then crows re else [])); [reflexivity|].
+    intros re Hre. apply filter_all. intros r Hr. now apply bm_rows.
+  Qed.
+
+  Lemma loopp_spec inner le : In le lcat ->
+    Permutation (loopp inner le) (flat_map (gspec ri R (holdsp li on) (negb inner)) (crows le)).
+  Proof.
+    intros Hle. unfold loopp.
+    set (P := partners_of le).
+    (* the specification on this group, with the partners listed group by group *)
+    assert (Hspec : Permutation (flat_map (gspec ri R (holdsp li on) (negb inner)) (crows le))
+                      (flat_map (fun l => match P with
+                                          | [] => if negb inner then [nullp ri l] else []
+                                          | _ => map (mergep l) P end) (crows le))).
+    { apply flat_map_perm_ext. intros l Hl. unfold gspec.
+      pose proof (filter_partners le l Hle Hl) as Hf. fold P in Hf.
+      destruct (filter (holdsp li on l) R) as [|x xs] eqn:Ef.
+      - apply Permutation_nil in Hf. now rewrite Hf.
+      - destruct P as [|y ys]; [symmetry in Hf; now apply Permutation_nil in Hf|].
+        now apply Permutation_map. }
+    (* the model: loops exchanged *)
+    assert (Hout : Permutation
+              (flat_map (fun re => if bm le re then pairsp (crows le) (crows re) else []) rcat)
+              (flat_map (fun l => map (mergep l) P) (crows le))).
+    { rewrite (flat_map_ext_in _ (fun re => flat_map (fun l => map (mergep l) (if bm le re then crows re else [])) (crows le))).
+      2:{ intros re _. destruct (bm le re); [reflexivity|]. cbn. now rewrite flat_map_nil_fn. }
+      etransitivity; [apply flat_map_swap|].
+      apply flat_map_perm_ext. intros l _. unfold P, partners_of. now rewrite map_flat_map. }
+    destruct HLC as [_ _ Hne _]. rewrite Forall_forall in Hne. specialize (Hne le Hle).
+    destruct P as [|y ys] eqn:EP.
+    - (* no partner *)
+      rewrite (flat_map_ext_in (fun l => map (mergep l) []) (fun _ => [])) in Hout by reflexivity.
+      rewrite flat_map_nil_fn in Hout. apply Permutation_sym, Permutation_nil in Hout. rewrite Hout.
+      etransitivity; [|symmetry; exact Hspec].
+      destruct inner; cbn.
+      + now rewrite flat_map_nil_fn.
+      + clear. induction (crows le); cbn; auto.
+    - etransitivity; [|symmetry; exact Hspec].
+      destruct (flat_map (fun re => if bm le re then pairsp (crows le) (crows re) else []) rcat) as [|o os] eqn:Eo.
+      + exfalso. apply Permutation_nil in Hout.
+        destruct (crows le) as [|l ls]; [congruence|]. cbn in Hout. discriminate.
+      + exact Hout.
+  Qed.
+
+  Theorem loop_core_spec inner :
+    exists out,
+      mapM (fun le => loop_match data inner ri on le rcat) lcat = Ok out /\
+      left_join data on (negb inner) ri L R = Ok (flat_map (gspec ri R (holdsp li on) (negb inner)) L) /\
+      Permutation (List.concat out) (flat_map (gspec ri R (holdsp li on) (negb inner)) L).
+  Proof.
+    exists (map (loopp inner) lcat). split; [|split].
+    - apply mapM_pure. intros le Hle. now apply loop_match_pure.
+    - apply (left_join_pure data on ri L R (holdsp li on) objL objR);
+        [intros l r Hl Hr; now apply (on_holds_pure li ri L R on data WF)|apply incl_refl].
+    - rewrite concat_map_flat.
+      etransitivity; [apply flat_map_perm_ext; intros le Hle; now apply loopp_spec|].
+      rewrite <- flat_map_flat_map. apply Permutation_flat_map.
+      destruct HLC as [_ _ _ Hp]. now rewrite <- concat_map_flat.
+  Qed.
+End LoopPure.
